@@ -39,6 +39,7 @@ ASSUMPTIONS = [
     'step = 0 with size_increment >= 1 (expanding windows): the library must yield a prefix of the reference sequence that contains every window whose right edge is inside the container',
     'as_array windows of a Frame are compared at value strength modulo NumPy row/column consolidation (ints kept within 2**31 in window specs)',
     'the name of a group / window container is not asserted; the class (Frame vs FrameGO) is recorded only',
+    'scope of key cells: bytes keys only as the single key dtype (S + U columns resolve to U, bytes + int keys become an S-dtype index in apply: dtype resolution, C07); tuple key cells only for Series and axis-0 keys (a row array cannot hold them); uint64 keys stay below 2**53',
 ]
 TIERS = {'quick': {'shards': 8, 'budget_s': 150, 'min_nontrivial': 40000},
          'thorough': {'shards': 16, 'budget_s': 1500, 'min_nontrivial': 400000}}
@@ -646,6 +647,21 @@ def probes(ctx):
         {'kind': 'swin', 'spec': S(['a', 'b', 'c'], 'str', 'int64', [10, 11, 12], None),
          'params': {'size': 1, 'step': 1, 'window_sized': False, 'label_shift': -1, 'start_shift': -1, 'size_increment': 0},
          'valid': None, 'func': None},
+        # axis=1 grouping with a one-row list key
+        {'kind': 'fgroup', 'spec': Fs(['r', 'q'], ['a', 'b', 'c'], 'str', 'str', ['int64', 'int64', 'int64'], [[1, 2, 1], [5, 6, 7]], None),
+         'layout': [(0, 3, True)], 'axis': 1, 'form': 'list', 'keys': [0], 'pools': ['int64'], 'shape': 'few', 'cls': 'Frame'},
+        # axis=1 grouping by two rows held in an object array: the fallback restores rows instead of columns
+        {'kind': 'fgroup', 'spec': Fs(['r', 'q'], ['a', 'b', 'c'], 'str', 'str', ['int64', '<U5', 'int64'], [[1, 'x', 1], [5, 'y', 5]], None),
+         'layout': [(0, 1, False), (1, 2, False), (2, 3, False)], 'axis': 1, 'form': 'list', 'keys': [0, 1], 'pools': ['int64', '<U5'],
+         'shape': 'few', 'cls': 'Frame'},
+        # iter_window_array(axis=1) extracting an empty window: StopIteration leaks from TypeBlocks._extract_array
+        {'kind': 'fwin', 'spec': Fs(['r'], ['a', 'b', 'c'], 'str', 'str', ['int64', 'int64', 'int64'], [[1, 2, 3]], None),
+         'layout': [(0, 3, True)], 'axis': 1,
+         'params': {'size': 1, 'step': 1, 'window_sized': True, 'label_shift': 0, 'start_shift': -1, 'size_increment': 0},
+         'valid': None, 'func': None},
+        # FrameGO grouped on axis 1 by a label on the sort path
+        {'kind': 'fgroup', 'spec': Fs(['r', 'q'], ['a', 'b', 'c'], 'str', 'str', ['int64', 'int64', 'int64'], [[1, 2, 1], [5, 6, 7]], None),
+         'layout': [(0, 3, True)], 'axis': 1, 'form': 'label', 'keys': [0], 'pools': ['int64'], 'shape': 'few', 'cls': 'FrameGO'},
     ]
 
 
@@ -679,7 +695,7 @@ def generate(ctx):
             for which in kinds3:
                 yield _win_case(rng, n, params, which)
     # (2) sampled
-    for _ in range(ctx.n(24000, 500000)):
+    for _ in range(ctx.n(24000, 350000)):
         r = rng.random()
         if r < 0.14:
             yield gen_sgroup(rng)
@@ -786,7 +802,7 @@ def _group_shape(ref, n):
     return 'few_distinct'
 
 
-def _judge_group_forms(ctx, case_fp, klass, members, ref, multi, calls, count_expected=None):
+def _judge_group_forms(ctx, case_fp, klass, members, ref, multi, calls):
     """calls: {'items': fn -> iterable of (label, sub), 'values': fn -> iterable of sub,
     'apply': fn -> Series, 'items_apply': fn -> Series}.  One evaluation per form."""
     n = members.n
@@ -794,7 +810,6 @@ def _judge_group_forms(ctx, case_fp, klass, members, ref, multi, calls, count_ex
     klass = dict(klass, n_members=n, n_groups=len(ref))
     ctx.tally('group_shape', _group_shape(ref, n))
     ctx.tally('group_count', min(len(ref), 9))
-    observed_items = None
     for form, fn in calls.items():
         ctx.evaluation((case_fp, form), nontrivial)
         ctx.tally('form', f"{klass['container']}.{klass['op']}.{form}")
@@ -815,9 +830,9 @@ def _judge_group_forms(ctx, case_fp, klass, members, ref, multi, calls, count_ex
             ctx.violation(what, detail=_exc_detail(exc), klass=dict(k, exception=type(exc).__name__, stopiteration=_is_stopiter(exc)))
             continue
         if form == 'items':
-            observed_items = _judge_items(ctx, k, members, ref, multi, out)
+            _judge_items(ctx, k, members, ref, multi, out)
         elif form == 'values':
-            _judge_values(ctx, k, members, ref, out, observed_items)
+            _judge_values(ctx, k, members, ref, out)
         else:
             _judge_apply(ctx, k, ref, multi, out)
 
@@ -873,7 +888,7 @@ def _judge_items(ctx, k, members, ref, multi, out):
     return got1
 
 
-def _judge_values(ctx, k, members, ref, out, observed_items):
+def _judge_values(ctx, k, members, ref, out):
     got = sorted(repr(members.observed(sub)) for sub in out)
     exp = sorted(repr(members.expected(pos)) for pos in ref.values())
     if got != exp:
@@ -1017,7 +1032,7 @@ def _check_fgroup(case, ctx):
     _judge_group_forms(ctx, ('fgroup', repr(spec), repr(case['layout']), axis, form, tuple(keys), case.get('cls')), klass, members, ref, multi, calls)
 
 
-def _axis1_key_info(spec, keys, key_rows, two_d=False):
+def _axis1_key_info(spec, keys, key_rows):
     """key rows run across all columns: every key line is held in an array of the row dtype."""
     kind = _resolved_kind(spec.dtypes) if spec.dtypes else 'object'
     info = key_info(key_rows, ['object'] * len(keys))
@@ -1074,7 +1089,7 @@ def _numeric_loose(e, g):
     return canon.leq(e, g)
 
 
-def _window_expected(members, n, params, valid, step0):
+def _window_expected(n, params, valid, step0):
     p = params
     ref = ref_windows(n, p['size'], p['step'], p['window_sized'], p['label_shift'], p['start_shift'], p['size_increment'],
                       kmax=(4 * n + 24) if step0 else None)
@@ -1085,7 +1100,7 @@ def _window_expected(members, n, params, valid, step0):
     return ref
 
 
-def _judge_window_sequence(ctx, klass, members, labels, n, params, ref, got_pairs, step0, to_obs, to_exp, form):
+def _judge_window_sequence(ctx, klass, labels, n, params, ref, got_pairs, step0, to_obs, to_exp, form):
     """got_pairs: [(label, window)] (label None for value-only forms)."""
     k = dict(klass, form=form)
     with_labels = form.endswith('items')
@@ -1178,7 +1193,7 @@ def _check_swin(case, ctx):
     n = len(spec.labels)
     members = _Members('series', spec, 0)
     step0 = params['step'] == 0
-    ref = _window_expected(members, n, params, case.get('valid'), step0)
+    ref = _window_expected(n, params, case.get('valid'), step0)
     klass = _window_klass(case, 'series', n)
     klass['index_kind'] = spec.kind
     _tally_window(ctx, case, 'series', n, ref)
@@ -1216,11 +1231,11 @@ def _check_swin(case, ctx):
              'values': (lambda: [(None, w) for w in s.iter_window(**kw)], obs_series, exp_series),
              'array_items': (lambda: list(s.iter_window_array_items(**kw)), obs_array, exp_array),
              'array': (lambda: [(None, w) for w in s.iter_window_array(**kw)], obs_array, exp_array)}
-    _run_window_forms(ctx, case, ('swin', repr(spec), repr(sorted(params.items())), case.get('valid'), case.get('func')),
-                      klass, members, spec.labels, n, params, ref, step0, forms)
+    _run_window_forms(ctx, ('swin', repr(spec), repr(sorted(params.items())), case.get('valid'), case.get('func')),
+                      klass, spec.labels, n, params, ref, step0, forms)
 
 
-def _run_window_forms(ctx, case, fp, klass, members, labels, n, params, ref, step0, forms):
+def _run_window_forms(ctx, fp, klass, labels, n, params, ref, step0, forms):
     nontrivial = n >= 2 and len(ref) >= 1
     for form, (fn, to_obs, to_exp) in forms.items():
         ctx.evaluation((fp, form), nontrivial)
@@ -1230,19 +1245,18 @@ def _run_window_forms(ctx, case, fp, klass, members, labels, n, params, ref, ste
             ctx.violation('window_raised', detail=_exc_detail(exc),
                           klass=dict(klass, form=form, exception=type(exc).__name__, stopiteration=_is_stopiter(exc)))
             continue
-        _judge_window_sequence(ctx, klass, members, labels, n, params, ref, out, step0, to_obs, to_exp, form)
+        _judge_window_sequence(ctx, klass, labels, n, params, ref, out, step0, to_obs, to_exp, form)
 
 
 def _check_fwin(case, ctx):
     spec, params, axis = case['spec'], case['params'], case['axis']
-    import static_frame as sf
     f = F.build_frame(spec, case['layout'])
     members = _Members('frame', spec, axis)
     labels = spec.rows if axis == 0 else spec.cols
     n = len(labels)
     nr, nc = spec.shape
     step0 = params['step'] == 0
-    ref = _window_expected(members, n, params, case.get('valid'), step0)
+    ref = _window_expected(n, params, case.get('valid'), step0)
     klass = _window_klass(case, f'frame_axis{axis}', n)
     klass['index_kind'] = spec.row_kind if axis == 0 else spec.col_kind
     _tally_window(ctx, case, f'frame_axis{axis}', n, ref)
@@ -1282,5 +1296,5 @@ def _check_fwin(case, ctx):
              'values': (lambda: [(None, w) for w in f.iter_window(**kw)], obs_frame, exp_frame),
              'array_items': (lambda: list(f.iter_window_array_items(**kw)), obs_array, exp_array),
              'array': (lambda: [(None, w) for w in f.iter_window_array(**kw)], obs_array, exp_array)}
-    _run_window_forms(ctx, case, ('fwin', repr(spec), repr(case['layout']), axis, repr(sorted(params.items())), case.get('valid'), case.get('func')),
-                      klass, members, labels, n, params, ref, step0, forms)
+    _run_window_forms(ctx, ('fwin', repr(spec), repr(case['layout']), axis, repr(sorted(params.items())), case.get('valid'), case.get('func')),
+                      klass, labels, n, params, ref, step0, forms)
